@@ -360,3 +360,211 @@ func (c *Ctx) ruleNilOnError(rule string, in func(*ssa.Function) bool) int {
 	}
 	return n
 }
+
+// ruleStaleNil (N3.stalenil): an error value that is known to be nil is not
+// what a failure is reported with. Two shapes of one slip — the error variable
+// of an earlier, successful step reused where a later check fails:
+//
+//	(a) github.com/pkg/errors.Wrap/Wrapf/WithMessage(err, ...) with err known nil:
+//	    these return nil for a nil argument, so the failure is reported as success;
+//	(b) `return nil, ..., err` with all other results zero and err known nil,
+//	    behind a later test, in a function whose successful returns carry values.
+//
+// "Known nil": the nil constant, or a value tested on the way with the path
+// continuing on its nil edge. Anything else is left alone.
+func (c *Ctx) ruleStaleNil(rule string, in func(*ssa.Function) bool) int {
+	n := 0
+	counts := map[string]int{}
+	knownNil := func(fn *ssa.Function, v ssa.Value, blk *ssa.BasicBlock) (bool, int) {
+		if ir.IsNilConst(v) {
+			return true, -1
+		}
+		conds := ir.DominatingConds(fn, blk)
+		for k, ce := range conds {
+			// the very value that was tested (a variable kept in a cell may have
+			// been reassigned since and is left alone)
+			if x, isNil := errIsNil(ce.RawCond, ce.RawTruth); x != nil && isNil && x == v {
+				return true, k
+			}
+		}
+		// a variable assigned on several paths: nil on every one of them (the
+		// untouched initial nil, or an assignment that was tested on the way in)
+		if ph, isPhi := v.(*ssa.Phi); isPhi {
+			var nilPhi func(ph *ssa.Phi, seen map[*ssa.Phi]bool) bool
+			nilPhi = func(ph *ssa.Phi, seen map[*ssa.Phi]bool) bool {
+				if seen[ph] {
+					return true
+				}
+				seen[ph] = true
+				for k, ev := range ph.Edges {
+					if ir.IsNilConst(ev) {
+						continue
+					}
+					if inner, ok := ev.(*ssa.Phi); ok && nilPhi(inner, seen) {
+						continue
+					}
+					pred := ph.Block().Preds[k]
+					ok := false
+					for _, ce := range ir.DominatingConds(fn, pred) {
+						if x, isNil := errIsNil(ce.RawCond, ce.RawTruth); x != nil && isNil && x == ev {
+							ok = true
+						}
+					}
+					for _, ce := range ir.CondEdges(fn) {
+						if ce.If != nil && ce.Edge.From == pred.Index && ce.Edge.To == ph.Block().Index {
+							if x, isNil := errIsNil(ce.RawCond, ce.RawTruth); x != nil && isNil && x == ev {
+								ok = true
+							}
+						}
+					}
+					if !ok {
+						return false
+					}
+				}
+				return true
+			}
+			if nilPhi(ph, map[*ssa.Phi]bool{}) {
+				return true, -1
+			}
+		}
+		return false, -1
+	}
+	for _, fn := range c.P.LibFunctions() {
+		if in != nil && !in(fn) {
+			continue
+		}
+		fn := fn
+		// (a)
+		instrsOf(fn, func(i ssa.Instruction) {
+			call, ok := i.(*ssa.Call)
+			if !ok {
+				return
+			}
+			switch ir.CallID(call) {
+			case "github.com/pkg/errors.Wrap", "github.com/pkg/errors.Wrapf", "github.com/pkg/errors.WithMessage", "github.com/pkg/errors.WithMessagef", "github.com/pkg/errors.WithStack":
+			default:
+				return
+			}
+			n++
+			key := ordinalKey(counts, name(fn)+":wrap")
+			construct := strings.TrimPrefix(key, name(fn)+":")
+			e := call.Call.Args[0]
+			if isNil, _ := knownNil(fn, e, call.Block()); isNil {
+				c.R.Violf(rule, name(fn), construct, c.IPos(call), "an error that is wrapped to report a failure is not known to be nil",
+					shortID(ir.CallID(call))+" is given an error that is nil on this path (the variable of an earlier, successful step): it returns nil, and the failure is reported as success")
+				return
+			}
+			c.R.Okf(rule, name(fn), construct, c.IPos(call), "the wrapped error is not known to be nil here")
+		})
+		// (b)
+		sig := fn.Signature
+		if sig.Results().Len() < 2 || !isErrorType(sig.Results().At(sig.Results().Len()-1).Type()) {
+			continue
+		}
+		last := sig.Results().Len() - 1
+		valued := false // some return hands out values with a nil error
+		for _, r := range ir.Returns(fn) {
+			if len(r.Results) != last+1 || !ir.IsNilConst(effectiveResult(fn, r, last)) {
+				continue
+			}
+			for k := 0; k < last; k++ {
+				if _, isK := effectiveResult(fn, r, k).(*ssa.Const); !isK {
+					valued = true
+				}
+			}
+		}
+		if !valued {
+			continue
+		}
+		for _, r := range ir.Returns(fn) {
+			if len(r.Results) != last+1 {
+				continue
+			}
+			e := effectiveResult(fn, r, last)
+			if _, isK := e.(*ssa.Const); isK {
+				continue
+			}
+			zero := true
+			for k := 0; k < last; k++ {
+				if kc, isK := effectiveResult(fn, r, k).(*ssa.Const); !isK || !(kc.IsNil() || isZeroConst(kc)) {
+					zero = false
+				}
+			}
+			if !zero {
+				continue
+			}
+			isNil, at := knownNil(fn, e, r.Block())
+			if !isNil || at < 0 || at == len(ir.DominatingConds(fn, r.Block()))-1 {
+				continue // not known nil, or nothing was tested after it
+			}
+			n++
+			key := ordinalKey(counts, name(fn)+":return")
+			c.R.Violf(rule, name(fn), strings.TrimPrefix(key, name(fn)+":"), c.IPos(r), "a failure is not reported with an error that is known to be nil",
+				"this return hands back zero values together with an error variable that is nil on this path (it belongs to an earlier step that succeeded; a later check failed here): the caller sees success and uses the zero values")
+		}
+	}
+	return n
+}
+
+// ruleNoGlobalGrowth (T11.retain): decoding code adds nothing to package-level
+// containers. A map or slice at package level that a decoder writes keeps what
+// it was given for the life of the process (memory grows with the inputs ever
+// seen), and a map written without a lock aborts the process ("concurrent map
+// writes") when two decodes run at once.
+func (c *Ctx) ruleNoGlobalGrowth(rule string, in func(*ssa.Function) bool) int {
+	n := 0
+	counts := map[string]int{}
+	fromGlobal := func(v ssa.Value) *ssa.Global {
+		for depth := 0; depth < 6 && v != nil; depth++ {
+			switch x := v.(type) {
+			case *ssa.Global:
+				return x
+			case *ssa.UnOp:
+				v = x.X
+			case *ssa.FieldAddr:
+				v = x.X
+			case *ssa.IndexAddr:
+				v = x.X
+			case *ssa.ChangeType:
+				v = x.X
+			default:
+				return nil
+			}
+		}
+		return nil
+	}
+	for _, fn := range c.P.LibFunctions() {
+		if in != nil && !in(fn) || fn.Name() == "init" || strings.HasPrefix(fn.Name(), "init#") {
+			continue
+		}
+		fn := fn
+		instrsOf(fn, func(i ssa.Instruction) {
+			switch x := i.(type) {
+			case *ssa.MapUpdate:
+				if g := fromGlobal(x.Map); g != nil {
+					n++
+					key := ordinalKey(counts, name(fn)+":map")
+					c.R.Violf(rule, name(fn), strings.TrimPrefix(key, name(fn)+":"), c.IPos(x), "decoding adds nothing to package-level containers",
+						"an entry is added to the package-level map "+g.Name()+": it is kept for the life of the process (memory grows with every distinct input), and two decodes running at once abort the process with 'concurrent map writes'")
+				}
+			case *ssa.Store:
+				g, isG := x.Addr.(*ssa.Global)
+				if !isG {
+					return
+				}
+				if call, isC := x.Val.(*ssa.Call); isC && ir.CallID(call) == "builtin.append" {
+					if fromGlobal(call.Call.Args[0]) == g {
+						n++
+						key := ordinalKey(counts, name(fn)+":append")
+						c.R.Violf(rule, name(fn), strings.TrimPrefix(key, name(fn)+":"), c.IPos(x), "decoding adds nothing to package-level containers",
+							"the package-level slice "+g.Name()+" grows by an append on every call: memory grows with the inputs ever seen, and concurrent calls race on it")
+					}
+				}
+			}
+		})
+	}
+	if n == 0 {
+		c.R.Okf(rule, "-", "scan", "-", "no function in scope adds to a package-level map or slice")
+	}
+	return n
+}
